@@ -338,3 +338,51 @@ func (t *Transcoder) VerifRESTDecode(httpMethod, escapedPath, rawQuery string, b
 	err = restClientProtocol{}.prepareUnmarshalledRequest(op, body, msg)
 	return conf.methodPath, msg, err
 }
+
+// VerifPoolDuplicates takes up to n objects out of every compressor and decompressor pool of the
+// transcoder, reports the pools in which one object came out twice (it was put back twice), and puts
+// each object back once. Call it while no request is in flight and with the garbage collector suspended.
+func (t *Transcoder) VerifPoolDuplicates(n int) []string {
+	var dups []string
+	names := make([]string, 0, len(t.compressors))
+	for name := range t.compressors {
+		names = append(names, name)
+	}
+	sort.Strings(names)
+	for _, name := range names {
+		pool := t.compressors[name]
+		if pool == nil {
+			continue
+		}
+		seenC := map[any]bool{}
+		var gotC []any
+		for i := 0; i < n; i++ {
+			c := pool.compressors.Get()
+			if seenC[c] {
+				dups = append(dups, "compressor-in-pool-twice:"+name)
+				continue
+			}
+			seenC[c] = true
+			gotC = append(gotC, c)
+		}
+		for _, c := range gotC {
+			pool.compressors.Put(c)
+		}
+		seenD := map[any]bool{}
+		var gotD []any
+		for i := 0; i < n; i++ {
+			d := pool.decompressors.Get()
+			if seenD[d] {
+				dups = append(dups, "decompressor-in-pool-twice:"+name)
+				continue
+			}
+			seenD[d] = true
+			gotD = append(gotD, d)
+		}
+		for _, d := range gotD {
+			pool.decompressors.Put(d)
+		}
+	}
+	return dups
+}
+
